@@ -469,6 +469,12 @@ func (cx *Ctx) checkBase64Decoding(r *Report) {
 						}
 					}
 				}
+				// strings.NewReplacer(" ", "", "\t", "", "\n", "", "\r", "").Replace(text)
+				for _, l := range lvf.Deep(lvf.Labels(args[txtIdx])).keys() {
+					if strings.HasPrefix(l, "ext:(*strings.Replacer).Replace") && replacerStripsWhitespace(w) {
+						stripped = true
+					}
+				}
 				if !stripped {
 					r.Fail("R-B64", key+":certificate-whitespace", w.InstrPos(c), "certificate text is base64-decoded without all white space being removed first: the decoder skips line breaks only, so a certificate published in indented (pretty-printed) metadata or KeyInfo - legal xs:base64Binary - cannot be read and the provider's correctly signed requests are refused")
 					continue
@@ -1100,4 +1106,64 @@ func (cx *Ctx) checkDecoderNotStricter(r *Report, dk string) {
 		}
 		r.Check(bad == "", "R-STRICT", dk, w.FnPos(fn), "rejects only what InflateAndDecode / encoding/xml reject", bad)
 	}
+}
+
+// replacerStripsWhitespace: every strings.NewReplacer of the module's non-mock code that maps anything to "" maps at
+// least blank, tab, CR and LF to "" (a replacer used to strip white space strips all of it).
+func replacerStripsWhitespace(w *World) bool {
+	found := false
+	for _, fn := range w.Funcs {
+		for _, c := range callsIn(fn) {
+			if calleeName(c) != "strings.NewReplacer" {
+				continue
+			}
+			// the variadic arguments: stores of constants into the backing array
+			removed := map[string]bool{}
+			var consts []string
+			if len(c.Common().Args) == 1 {
+				if sl, ok := c.Common().Args[0].(*ssa.Slice); ok {
+					if al, ok := sl.X.(*ssa.Alloc); ok {
+						type kv struct {
+							idx int64
+							val string
+						}
+						var kvs []kv
+						for _, ref := range nonDebugRefs(al) {
+							ia, isIA := ref.(*ssa.IndexAddr)
+							if !isIA {
+								continue
+							}
+							i, okI := constInt(ia.Index)
+							for _, r2 := range nonDebugRefs(ia) {
+								if st, isSt := r2.(*ssa.Store); isSt && okI {
+									if k, isK := constString(st.Val); isK {
+										kvs = append(kvs, kv{i, k})
+									}
+								}
+							}
+						}
+						consts = make([]string, len(kvs))
+						for _, e := range kvs {
+							if int(e.idx) < len(consts) {
+								consts[e.idx] = e.val
+							}
+						}
+					}
+				}
+			}
+			for i := 0; i+1 < len(consts); i += 2 {
+				if consts[i+1] == "" {
+					removed[consts[i]] = true
+				}
+			}
+			if len(removed) == 0 {
+				continue
+			}
+			if !(removed[" "] && removed["\t"] && removed["\n"] && removed["\r"]) {
+				return false
+			}
+			found = true
+		}
+	}
+	return found
 }
